@@ -129,8 +129,24 @@ func VH_C37_candidate() {
 		th = ConfigTXTimestampThresholdDefault
 	}
 	fresh := initial
+	// an independent ledger (not the repository's PreValidate): the sender can pay value + step limit x price
+	// out of its balance after the transactions selected before it; the recipient is credited the value
+	ledger := map[string]*big.Int{}
+	for i, a := range w.addrs {
+		ledger[string(a.ID())] = initial.accts[i].bal
+	}
 	total := 0
 	for _, mtx := range txs {
+		{
+			t := mtx.(transaction.Transaction)
+			value, limit := transaction.VerifTxAmounts(t)
+			need := new(big.Int).Mul(limit, w.stepPrice)
+			need.Add(need, value)
+			from, to := string(t.From().ID()), string(t.To().ID())
+			sym.Assert(ledger[from].Cmp(need) >= 0, "the sender of a selected transaction can pay value and maximum fee after the transactions selected before it")
+			ledger[from] = new(big.Int).Sub(ledger[from], need)
+			ledger[to] = new(big.Int).Add(ledger[to], value)
+		}
 		sym.Reach("selected")
 		tx := mtx.(transaction.Transaction)
 		ts := tx.Timestamp()
